@@ -3,7 +3,8 @@
 Necessary conditions only: the separators recorded at tokenisation (at_bol /
 has_space) are printed by print_tokens, recorded for every kind of white
 space, survive copying, and are handed to the tokens that macro expansion
-creates; plus the (known-unprotected) expansion boundaries.
+creates; plus the expansion boundaries (R19.3) and, R19.4, the printer's separation decision evaluated against
+tokenize() itself on a complete table of pairs of token spellings (sa/lib_c19.py).
 """
 from ..interp import NoReturn, Infeasible, NeedChoice, Ctx, Interp, Obj, Sym, View, Cell, Term, Arr, VarPlace, ElemPlace, _Ref, _Continue, _Break, _Return, is_opaque
 from ..build import AnalysisBroken
@@ -77,7 +78,17 @@ def r_printer(P, rep):
     rep.rule('R19.1', 'print_tokens writes a newline before every token with at_bol (except the first), a space before a token with has_space, then exactly the token\'s spelling, and ends the output with a newline', floor=5)
     outs = ('fprintf', 'fputs', 'fputc', 'putc', 'fwrite')
     # helpers the printer consults (e.g. a predicate over two neighbouring tokens) stay opaque: their answer forks the path
-    helpers = sorted(set(c.callee() for c in u.fn(fn).walk() if c.kind == 'CallExpr' and c.callee() and c.callee() not in outs) | {'open_file'})
+    # ... namely the helpers that look at spellings (`->loc`); a helper that only redistributes the flag logic is followed
+    reach, todo = set(), [fn]
+    while todo:
+        f = todo.pop()
+        for c in u.fn(f).walk():
+            g = c.callee() if c.kind == 'CallExpr' else None
+            if g and g not in outs and g not in reach:
+                reach.add(g)
+                if g in u.functions:
+                    todo.append(g)
+    helpers = sorted(set(g for g in reach if g not in u.functions or any(m.kind == 'MemberExpr' and m.name == 'loc' for m in u.fn(g).walk())) | {'open_file'})
     it = PInterp(P, u, {'opaque': helpers, 'cut': {k: None for k in outs}, 'loop_limit': 2, 'track_stores': True})
 
     def mk(ctx):
@@ -164,7 +175,7 @@ def r_separation(P, rep):
     fn = 'print_tokens'
     if fn not in u.functions:
         raise AnalysisBroken('anchor %s vanished from %s' % (fn, MU))
-    rep.rule('R19.4', 'for every pair of token spellings A, B (every punctuator of the tokenizer; one word, keyword, number, character/string literal per class of first and last character) that tokenize() does not read back as the tokens A, B when they are written without white space, print_tokens writes white space between them on every path, whatever the fields other than kind and spelling hold', floor=60)
+    rep.rule('R19.4', 'for every pair of token spellings A, B (every punctuator of the tokenizer; one word, keyword, number, character/string literal per class of first and last character) that tokenize() does not read back as the tokens A, B when they are written without white space, print_tokens writes white space between them on every path, whatever the fields other than kind and spelling hold', floor=100)
     rep.assumptions += ['<ctype.h> classification is that of the "C" locale (glibc table layout: (*__ctype_b_loc())[c] & _ISxxx)',
                         'R19.4 looks at pairs of neighbouring tokens (three one-character tokens that only fuse together are not covered)']
     where = '%s:%d' % (MU, u.fn(fn).line)
@@ -208,7 +219,7 @@ def r_separation(P, rep):
     for fields, lst in sorted(depends.items()):
         a, b, how, trail, consulted, nmiss, npaths = lst[0]
         rep.ob('R19.4', '%s:%s:separation-depends-on:%s' % (MU, fn, '-'.join(fields)), False,
-               'whether print_tokens keeps apart two tokens whose spellings read back differently when glued depends on %s: for %d pair(s) of the table, e.g. `%s` `%s` (glued: %s), white space is written on some paths and omitted on %d of %d - but no field other than kind and spelling tells how the text will be read back, and tokens that agree in those fields do meet without white space (a replacement-list token and the first token of a substituted argument, two arguments)' % (
+               'whether print_tokens keeps apart two tokens whose spellings read back differently when glued depends on %s: for %d pair(s) of the table, e.g. `%s` `%s` (glued: %s), white space is written on some paths and omitted on %d of %d - but no field other than kind and spelling tells how the text will be read back: at the seams of macro expansions (replacement-list token | first token of a substituted argument, argument | argument, expansion | following text) tokens meet without white space whatever these fields hold' % (
                    ', '.join(consulted), len(lst), show_(a), show_(b), how, nmiss, npaths),
                where=where, facts={'path': trail, 'pairs': ['%s|%s' % (show_(x[0]), show_(x[1])) for x in lst[:12]]})
     rep.extra['R19.4 table'] = {'one-token spellings': info['spellings'], 'pairs': info['pairs'], 'pairs not read back': len(set((r[0], r[1]) for r in res)),
